@@ -139,7 +139,30 @@ def cycle(prog, rep, fn, tag):
             if frm:
                 ra = Prov(b).of_operand(frm[0].args[0])
                 oka = has_root(ra, "field", "HasDc", "reference") or has_root(ra, "call", "MainDevice::dc_ref_address")
-            f["frmw"] = bool(okf and okg and oka and clk_first)
+            # the flag gating the FRMW is set once the clock response has been consumed
+            okt = False
+            if nc is not None:
+                gate_op = nc[0].t["d"]
+                gl = op_place(gate_op)
+                # follow Not / copies back to the flag local
+                flag = None
+                if gl is not None:
+                    l = gl["l"]
+                    for _ in range(4):
+                        ds = b.defs().get(l, [])
+                        same = [d_ for d_ in ds if d_[0] == nc[0].bb] or ds
+                        if len(same) >= 1 and same[-1][2] == "assign" and same[-1][3]["rv"]["k"] in ("un", "use"):
+                            src = op_place(same[-1][3]["rv"]["a"][0])
+                            if src is None:
+                                break
+                            l = src["l"]
+                            flag = l
+                            continue
+                        break
+                if flag is not None:
+                    sets = [d_ for d_ in b.defs().get(flag, []) if d_[2] == "assign" and q.const_int(d_[3]["rv"]["a"][0]) == 1 and d_[3]["rv"]["k"] == "use"]
+                    okt = len(sets) == 1 and bool(clk_first) and sets[0][0] in b.reachable_strict(clk_first[0].bb)
+            f["frmw"] = bool(okf and okg and oka and clk_first and okt)
             rep.ob(P, "%s:frmw-first%s" % (fn, tag), f["frmw"], "exactly one FRMW to the DC reference is pushed before the LRW, only while the time has not been read, and its response is consumed before the LRW's", loc=b.span)
     f["consume-order"] = order_ok
     rep.ob(P, "%s:consume-order%s" % (fn, tag), order_ok, "the LRW response is taken from the response iterator iff a chunk was pushed; remaining datagrams are state checks", loc=b.span)
